@@ -528,6 +528,60 @@ theorem push_deadline (s : State) (k : Nat) (side : Side) (v : BS) (vs : List BS
     · rename_i heq; exact absurd heq (hne [])
     · simp [NMap.get_insert]
 
+/-! ## 5c. sets and hashes -/
+
+/-- a set that loses its last member stops existing (SREM, SPOP, SPOP count) -/
+theorem emptied_set_vanishes (s : State) (hwf : NMap.WF s) (k c : Nat) (dl : Option Nat)
+    (h : lookupSet s k = .found [(c, ())] dl) :
+    NMap.get (execSRem s k [c]).1 k = none ∧
+    NMap.get (execSPop1 s k [c]).1 k = none ∧
+    (∀ n, 0 < n → NMap.get (execSPopN s k n [c]).1 k = none) := by
+  refine ⟨?_, ?_, ?_⟩
+  · simp [execSRem, h, sremAll, NMap.get, NMap.erase, putSet, NMap.get_erase hwf]
+  · simp [execSPop1, h, NMap.get, NMap.erase, putSet, NMap.get_erase hwf]
+  · intro n hn
+    have : min n 1 = 1 := by omega
+    simp [execSPopN, h, this, removeChosen, NMap.get, NMap.erase, putSet, NMap.get_erase hwf]
+
+/-- a hash that loses its last field stops existing -/
+theorem emptied_hash_vanishes (s : State) (hwf : NMap.WF s) (k f : Nat) (v : BS) (dl : Option Nat)
+    (h : lookupHash s k = .found [(f, v)] dl) :
+    NMap.get (execHDel s k [f]).1 k = none := by
+  simp [execHDel, h, hdelAll, NMap.get, NMap.erase, putHash, NMap.get_erase hwf]
+
+/-- SADD counts only new members, SREM only present ones (duplicates in the arguments count once) -/
+theorem sadd_srem_counts (m : MSet) (c : Nat) :
+    ((NMap.get m c).isSome = true → saddAll m [c, c] = (m, 0)) ∧
+    ((NMap.get m c).isSome = false → (saddAll m [c, c]).2 = 1) ∧
+    ((NMap.get m c).isSome = false → sremAll m [c, c] = (m, 0)) ∧
+    (NMap.WF m → (NMap.get m c).isSome = true → (sremAll m [c, c]).2 = 1) := by
+  refine ⟨?_, ?_, ?_, ?_⟩
+  · intro h; simp [saddAll, h]
+  · intro h; simp [saddAll, h, NMap.get_insert]
+  · intro h; simp [sremAll, h]
+  · intro hw h; simp [sremAll, h, NMap.get_erase hw]
+
+/-- HINCRBY on an existing hash: succeeds exactly when the field is absent (= 0) or holds a
+    canonical i64 and the exact sum stays in i64; never wraps -/
+theorem hincrby_laws (s : State) (k f : Nat) (h : MHash) (dl : Option Nat) (d : Int)
+    (hl : lookupHash s k = .found h dl) :
+    (∀ n, (execHIncrBy s k f d).2 = .int n ↔
+        ∃ v, hfieldInt h f = some v ∧ n = v + d ∧ inI64 (v + d) = true) ∧
+    (hfieldInt h f = none → execHIncrBy s k f d = (s, .err .hashNotInt)) ∧
+    (∀ v, hfieldInt h f = some v → inI64 (v + d) = false → execHIncrBy s k f d = (s, .err .overflow)) := by
+  refine ⟨?_, ?_, ?_⟩
+  · intro n
+    simp only [execHIncrBy, hl]
+    cases hp : hfieldInt h f with
+    | none => simp
+    | some v =>
+      cases hi : inI64 (v + d) <;> simp [hi]
+      constructor
+      · intro e; exact e.symm
+      · intro e; exact e.symm
+  · intro hp; simp [execHIncrBy, hl, hp]
+  · intro v hp hi; simp [execHIncrBy, hl, hp, hi]
+
 /-! ## 6. integer laws -/
 
 /-- only canonical texts are accepted: no `+`, no leading zero (except "0"), no `-0`, no
